@@ -11,6 +11,7 @@ import (
 	"path/filepath"
 	"strconv"
 	"strings"
+	"sync"
 
 	"github.com/ontio/ontology-crypto/ec"
 	"github.com/ontio/ontology-crypto/keypair"
@@ -46,6 +47,9 @@ type walletFam struct {
 	live   []*liveAcc
 	order  []*liveAcc // the accounts in wallet-file order (walletData.Accounts)
 	caseNo int
+	cliB   *account.ClientImpl // a second wallet that imports accounts from the first (cross-wallet aliasing)
+	inB    []*liveAcc          // what was imported into it, with the password valid at import time
+	winner []byte              // new password of the ChangePassword call that won the last concurrent round
 }
 
 type keyRec struct {
@@ -84,6 +88,9 @@ func (f *walletFam) Reset(r *hx.Run) {
 	f.keys = nil
 	f.live = nil
 	f.order = nil
+	f.cliB = nil
+	f.inB = nil
+	f.winner = nil
 }
 
 func (f *walletFam) sym(addr string) string {
@@ -122,6 +129,8 @@ func errClass(err error) string {
 		return "err:noDefault"
 	case strings.Contains(m, "signature scheme error"):
 		return "err:badScheme"
+	case strings.Contains(m, "save error"):
+		return "err:save"
 	case strings.Contains(m, "does not match the account address"):
 		return "err:addrMismatch"
 	case strings.Contains(m, "decrypt") || strings.Contains(m, "Decrypt") || strings.Contains(m, "authentication failed") || strings.Contains(m, "invalid argument") || strings.Contains(m, "private key length"):
@@ -409,6 +418,169 @@ func (f *walletFam) Exec(r *hx.Run, op []string) string {
 			}
 		}
 		return "ok"
+	case "exportlow":
+		// the `account export --low-security` flow: Clone(), ToLowSecurity on the clone, Save to another file. The
+		// wallet it was cloned from must not notice.
+		var pws [][]byte
+		for _, l := range f.order {
+			pws = append(pws, l.pw)
+		}
+		clone := f.cli.GetWalletData().Clone()
+		if err := clone.ToLowSecurity(pws); err != nil {
+			return "err:export"
+		}
+		target := filepath.Join(f.dir, "export.dat")
+		os.Remove(target)
+		if err := clone.Save(target); err != nil {
+			return "err:io"
+		}
+		if ec, err := account.NewClientImpl(target); err != nil {
+			r.Viol("C43:export-unreadable", "the exported low-security wallet cannot be opened: "+err.Error())
+		} else {
+			for _, l := range f.order {
+				if len(l.pw) == 0 {
+					continue
+				}
+				acc, err := ec.GetAccountByAddress(f.keys[l.key].addr, l.pw)
+				if (err != nil || acc == nil) && !l.shadow {
+					r.Viol("C43:own-password-fails:exported", fmt.Sprintf("account A%d of the exported low-security wallet does not open with its password: %v", l.key, err))
+				}
+			}
+		}
+		return "ok"
+	case "save": // WalletData.Save of the live wallet data, as any later mutating call would do
+		if err := f.cli.GetWalletData().Save(f.path); err != nil {
+			return "err:io"
+		}
+		return "ok"
+	case "ximport":
+		// wallet B imports the account from wallet A through its metadata (the CLI's `account import` from a wallet file)
+		if f.cliB == nil {
+			c, err := account.NewClientImpl(filepath.Join(f.dir, "walletB.dat"))
+			if err != nil {
+				return "err:open"
+			}
+			*c.GetWalletData().Scrypt = *f.cli.GetWalletData().Scrypt
+			f.cliB = c
+		}
+		addr := f.realAddr(op[1])
+		meta := f.cli.GetAccountMetadataByAddress(addr)
+		if meta == nil {
+			return "nil"
+		}
+		meta.Label = ""
+		if err := f.cliB.ImportAccount(meta); err != nil {
+			return errClass(err)
+		}
+		var src *liveAcc
+		for _, l := range f.live {
+			if !l.deleted && f.keys[l.key].addr == addr {
+				src = l
+			}
+		}
+		if src != nil {
+			f.inB = append(f.inB, &liveAcc{key: src.key, pw: append([]byte{}, src.pw...), mode: "ximport"})
+		}
+		return "ok"
+	case "chpwfault":
+		// ChangePassword while the wallet file cannot be written (a directory sits where Save puts its temporary file):
+		// the call must fail and roll back completely
+		addr := f.realAddr(op[1])
+		oldPw, newPw := hx.UnHex(op[2]), hx.UnHex(op[3])
+		block := f.path + "~"
+		os.RemoveAll(block)
+		os.Mkdir(block, 0700)
+		err := f.cli.ChangePassword(addr, oldPw, newPw)
+		os.RemoveAll(block)
+		if err == nil {
+			return "ok-unexpected"
+		}
+		out := errClass(err)
+		if out == "err:save" && !bytes.Equal(hmacKey(oldPw), hmacKey(newPw)) {
+			if acc, e := f.cli.GetAccountByAddress(addr, newPw); e == nil && acc != nil {
+				r.Viol("C43:rejected-password-change-took-effect", fmt.Sprintf("ChangePassword(%s) failed with a save error, yet the account now opens with the new password", op[1]))
+			}
+			if acc, e := f.cli.GetAccountByAddress(addr, oldPw); e != nil || acc == nil {
+				r.Viol("C43:own-password-fails:after-failed-change", fmt.Sprintf("ChangePassword(%s) failed with a save error and the account no longer opens with its (unchanged) password: %v", op[1], e))
+			}
+		}
+		return out
+	case "chpwconc":
+		// k goroutines change the password of one account at once, all presenting the same old password
+		addr := f.realAddr(op[1])
+		oldPw := hx.UnHex(op[2])
+		var news [][]byte
+		for _, h := range strings.Split(op[3], ",") {
+			news = append(news, hx.UnHex(h))
+		}
+		errs := make([]error, len(news))
+		var wg sync.WaitGroup
+		start := make(chan struct{})
+		for i := range news {
+			wg.Add(1)
+			go func(i int) {
+				defer wg.Done()
+				<-start
+				errs[i] = f.cli.ChangePassword(addr, oldPw, news[i])
+			}(i)
+		}
+		close(start)
+		wg.Wait()
+		var won []int
+		for i, e := range errs {
+			if e == nil {
+				won = append(won, i)
+			}
+		}
+		f.winner = nil
+		if len(won) > 1 {
+			r.Viol("C43:concurrent-password-changes-all-succeed", fmt.Sprintf("%d of %d overlapping ChangePassword calls on %s with the same old password returned success", len(won), len(news), op[1]))
+		}
+		reopened, _ := account.NewClientImpl(f.path)
+		for i, np := range news {
+			ok := false
+			for _, w := range won {
+				if w == i {
+					ok = true
+				}
+			}
+			for _, cw := range []struct {
+				c *account.ClientImpl
+				w string
+			}{{f.cli, "live"}, {reopened, "reloaded"}} {
+				if cw.c == nil {
+					continue
+				}
+				acc, e := cw.c.GetAccountByAddress(addr, np)
+				opens := e == nil && acc != nil
+				if ok && len(won) == 1 && !opens {
+					r.Viol("C43:own-password-fails:after-concurrent-change", fmt.Sprintf("the ChangePassword call that reported success set a password that does not open %s (%s client)", op[1], cw.w))
+				}
+				if ok && len(won) > 1 && !opens {
+					r.Viol("C43:own-password-fails:after-concurrent-change", fmt.Sprintf("a ChangePassword call reported success but its password does not open %s (%s client)", op[1], cw.w))
+				}
+				if !ok && opens {
+					r.Viol("C43:other-password-accepted:after-concurrent-change", fmt.Sprintf("a ChangePassword call that failed left its password in effect on %s (%s client)", op[1], cw.w))
+				}
+			}
+		}
+		if len(won) >= 1 {
+			f.winner = news[won[len(won)-1]]
+			var last *liveAcc
+			for _, l := range f.live {
+				if !l.deleted && f.keys[l.key].addr == addr {
+					last = l
+				}
+			}
+			if last != nil && len(won) == 1 {
+				last.oldPw = append([]byte{}, oldPw...)
+				last.pw = append([]byte{}, f.winner...)
+				last.mode = "gcm"
+			}
+		}
+		return fmt.Sprintf("winners=%d", len(won))
+	case "chpwwon": // op line written from the observation of the preceding chpwconc (which call won): echo
+		return "ok"
 	case "reload":
 		c, err := account.NewClientImpl(f.path)
 		if err != nil {
@@ -425,6 +597,7 @@ func (f *walletFam) Exec(r *hx.Run, op []string) string {
 		if f.cli != nil {
 			f.auditOn(r, f.cli, "live")
 		}
+		f.auditB(r)
 		return "ok"
 	}
 	return "bad-op"
@@ -448,7 +621,31 @@ func (f *walletFam) audit(r *hx.Run) string {
 		return "err:open"
 	}
 	f.auditOn(r, c, "reloaded")
+	f.auditB(r)
 	return "ok"
+}
+
+// auditB: accounts imported into the second wallet open there with the password they had when they were imported,
+// whatever happened to the wallet they came from — on the live second client and on its re-opened file.
+func (f *walletFam) auditB(r *hx.Run) {
+	if f.cliB == nil {
+		return
+	}
+	cs := []*account.ClientImpl{f.cliB}
+	if c, err := account.NewClientImpl(filepath.Join(f.dir, "walletB.dat")); err == nil {
+		cs = append(cs, c)
+	}
+	for ci, c := range cs {
+		for _, l := range f.inB {
+			if len(l.pw) == 0 {
+				continue
+			}
+			acc, err := c.GetAccountByAddress(f.keys[l.key].addr, l.pw)
+			if err != nil || acc == nil || !bytes.Equal(privBytes(acc.PrivateKey), privBytes(f.keys[l.key].priv)) {
+				r.Viol("C43:own-password-fails:imported-copy-in-other-wallet", fmt.Sprintf("account A%d imported into a second wallet no longer opens there with the password it was imported with (%s client): %v", l.key, []string{"live", "reloaded"}[ci], err))
+			}
+		}
+	}
 }
 
 func (f *walletFam) auditOn(r *hx.Run, c *account.ClientImpl, where string) {
